@@ -82,6 +82,10 @@ HARNESSES = [
         ("k_capi_mz_inflate", ["C17", "C06"], ["mz_inflate", "mz_inflateInit2", "mz_inflateEnd", "mz_inflate_oxide", "mz_inflate_init2_oxide", "StreamOxide::try_new", "StreamOxide::into_mz_stream", "MZFlush::new", "as_c_return_code"]),
         ("k_capi_custom_allocators_rejected", ["C17"], ["StreamOxide::try_new"]),
       )],
+    H("k_decode_huffman_code_overflow_tree", "K-slowdecode", ["C03", "C04", "C05", "C06", "C07"], cost=60, timeout=900,
+      fns=["decode_huffman_code", "HuffmanTable::fast_lookup", "HuffmanTable::tree_lookup", "read_byte", "read_u16_le", "end_of_input"],
+      strength="B(one well-formed table instance with 1..12-bit codes; <= 40 buffered bits + <= 3 input bytes; complete over every bit stream, split and flag word)",
+      note="the table instance is what init_tree builds for lengths 1..11,12,12 (derived by hand from init_tree's algorithm; init_tree itself is behind an assumed contract)"),
     H("k_apply_match_small_buffer", "K-applymatch", ["C03", "C05", "C07", "C08"], fns=["apply_match", "transfer"], cost=70, timeout=2400, tier="thorough",
       strength="B(buffer <= 16 bytes; complete in contents, positions, distance, length, flat/ring mode)"),
     H("k_apply_match_tiny_buffer", "K-applymatch", ["C03", "C05", "C07", "C08"], fns=["apply_match", "transfer"], cost=70, timeout=900,
